@@ -49,7 +49,7 @@ def gen(chains):
             "b.go": hdr + "\n".join(files["b"]),
             "lib/lib.go": "package lib\n\nfunc Through(f func()) {\n\tinner(f)\n}\n\nfunc inner(f func()) { f() }\n"}
 chains = [((k,), "stack") for k in KINDS + RISKY]
-chains += [((k,), "panic") for k in ("func", "ptrmethod", "goroutine", "deferred", "otherpkg")]
+chains += [((k,), "panic") for k in ("func", "ptrmethod", "deferred", "otherpkg")]   # a panic inside a goroutine prints the other goroutines in scheduling-dependent states
 chains += [((k,), "caller") for k in ("func", "valmethod", "closure", "generic")]
 chains += [((a, b), "stack") for a in KINDS for b in KINDS]
 if tier != "quick":
@@ -83,14 +83,14 @@ if p0.returncode != 0: log("generator bug:", p0.stderr.decode()[:3000]); sys.exi
 def trace_of(binp, ci):
     o = exec_bin(binp, [str(ci)], env={"GOTRACEBACK": "all"})
     return (o.stdout + o.stderr).decode(errors="replace")
-plain = [trace_of(d0 + "/plain", ci) for ci in range(len(chains))]
+plain = pmap(lambda ci: trace_of(d0 + "/plain", ci), range(len(chains)))
 frames_total = 0; compared = 0
 def cfg_run(fl):
     d = g.newdir("g"); write_module(d, files, modpath=MODP)
     p = g.garble(fl, "build", ["-o", "out", "."], d)
     if p.returncode != 0:
         return fl, None, short(p.stderr, 1500), d
-    traces = [trace_of(d + "/out", ci) for ci in range(len(chains))]
+    traces = pmap(lambda ci: trace_of(d + "/out", ci), range(len(chains)), workers=8)
     sep = "\n=====CHAIN=====\n"
     pr = g.garble(fl, "reverse", ["."], d, input=sep.join(traces).encode())
     return fl, (traces, pr.stdout.decode(errors="replace").split(sep), pr.returncode), None, d
@@ -114,7 +114,10 @@ for fl, res, err, d in pmap(cfg_run, CONFIGS, workers=4):
             if wf != gf:
                 R.violation("function-name:" + "+".join(kinds), "flags %s chain %s/%s: frame %r reversed to %r" % (fl, kinds, term, wf, gf), {"module/" + k: v for k, v in files.items()})
             if wp != gp:
-                kind_sig = "multi-line-call" if risky else "+".join(kinds)
+                if risky: kind_sig = "multi-line-call"
+                elif wf.startswith("created by"): kind_sig = "go-statement"
+                elif any(k in ("deferred", "deferclosure") for k in kinds): kind_sig = "defer-statement"
+                else: kind_sig = "+".join(kinds)
                 R.violation("position:" + kind_sig, "flags %s chain %s/%s: position %r reversed to %r (function %s)" % (fl, kinds, term, wp, gp, wf), {"module/" + k: v for k, v in files.items()})
     # text forms on one trace
     t = traces[0]
